@@ -631,19 +631,29 @@ func (r *runner) execFin(opi int, op Op) {
 		r.res.Histogram[fmt.Sprintf("env:unexpected-outcome-want-%v", want)]++
 		r.c.Ops[opi].OK = ok
 	}
+	reinstated := true
 	if ok && cs.probe {
 		// the real code reinstates in a goroutine: wait for it (bounded)
+		reinstated = false
 		dl := time.Now().Add(3 * time.Second)
 		for time.Now().Before(dl) {
 			if r.activeCounts()[ep] > act0[ep] && w.vm.Health(w.keys[ep]).Status {
+				reinstated = true
 				break
 			}
 			time.Sleep(200 * time.Microsecond)
 		}
 	}
-	r.post(s)
-	if r.tainted {
-		return
+	if reinstated {
+		// (when the wait above ran out, the second boundary it crossed is irrelevant: nothing
+		// time-dependent is compared for a reinstatement that never came)
+		r.post(s)
+		if r.tainted {
+			return
+		}
+	} else {
+		r.lastR = time.Now().Unix() // the wait consumed real seconds; the case ends with the violation below
+		r.tainted = true
 	}
 	act1 := r.activeCounts()
 	h1 := w.vm.Health(w.keys[ep])
@@ -661,13 +671,15 @@ func (r *runner) execFin(opi int, op Op) {
 	if cs.probe {
 		cls += "+probe"
 	}
-	r.record(opi, fmt.Sprintf("fin %d %d %d", ep, b01(cs.probe), b01(ok)), events)
-	r.count("fin", cls)
+	if reinstated {
+		r.record(opi, fmt.Sprintf("fin %d %d %d", ep, b01(cs.probe), b01(ok)), events)
+		r.count("fin", cls)
+	}
 
 	// ---- oracle ----
 	if ok {
 		if cs.probe {
-			if !(act1[ep] > 0 && h1.Status) {
+			if !reinstated || !(act1[ep] > 0 && h1.Status) {
 				r.violate("not-reinstated", "doInvoke", fmt.Sprintf("the probe call on blocked endpoint %d succeeded but the endpoint is not back in rotation", ep))
 			} else {
 				r.failsSince[ep] = 0
